@@ -17,6 +17,14 @@ never through rich.color).
          triples over 25 derived operands (without_color, update_link incl. None, from_color, copy,
          parse, + and chain results, background_style) and 6 keyword-built partners, derived
          operand in every position.
+(history) parse / normalize memo histories: 140 events (parse of each spelling, normalize, parse of
+         str(keyword-built)) over 22 style groups whose spellings either denote the same style
+         (abbreviations, extra spaces, word order, upper-case words) or collide after lower-casing /
+         whitespace normalisation although they denote different styles (links differing only in
+         letter case, trailing slash, query case); all ordered pairs (thorough: + related triples of
+         parse events), each history from empty caches (cache_clear(), or a forked child of a
+         process that has parsed nothing when a memo is not an lru_cache); every step must give the
+         style of its own definition. Keys history/parse/<event>/<what it follows>/<clause>.
 (routes) for every s in U every construction route (keywords twice, Color objects, parse of
          independent spellings, a+b for every split of the fields with and without overridden
          left values, chain/combine, copy, update_link, without_color, from_color,
@@ -30,9 +38,9 @@ never through rich.color).
          all n, #hex / rgb() on a per-channel grid (quick 25, thorough 70 values + each
          channel over all 256), default, on, link.
 
-Measured: quick 5.0 M evaluations, 353 distinct outcome signatures, ~105 CPU-s (48 s wall with
-6 workers on a machine at load 60); thorough 25.8 M evaluations, 365 signatures, ~14 CPU-min
-(6.7 min wall with 6 workers on the same loaded machine).
+Measured: quick 5.2 M evaluations (19.6 k cache histories), 368 distinct outcome signatures,
+~90 CPU-s (19 s wall with 6 workers); thorough 26.3 M evaluations (78 k histories), 384 signatures,
+~12 CPU-min (3.4 min wall with 6 workers).
 """
 import itertools
 import os
@@ -54,12 +62,14 @@ LEVEL_TEXT = ("Every style of a syntax-directed universe (each attribute in each
               "basis, every construction route to each style and every documented spelling is executed on the real "
               "code and compared with an independent reference. Exhaustive inside the stated bounds; nothing is sampled.")
 LEVEL_NOTE = ("Trusted: CPython, vf/refstyle.py, the 60-line description algebra in vf/checks/c06.py, the colour table "
-              "of docs/source/appendix/colors.rst. Bounds: U = 1312 styles (quick) / 2072 (thorough); basis 40 / 90; "
+              "of docs/source/appendix/colors.rst. Bounds: U = 1336 styles (quick) / 2096 (thorough); basis 40 / 90; "
               "attribute vectors <=3 specified + 2^13 full (quick) / all 3^13 (thorough).")
 
 IDX = {a: i for i, a in enumerate(ATTRS)}
 U1 = "https://example.org/A?b=1"     # upper case on purpose: nothing may lower-case a URL
 U2 = "u2"
+U1C = "https://example.org/a?B=1"    # U1 with the case of path and query flipped: a different URL
+U1S = "https://example.org/A/?b=1"   # U1 with a trailing slash on the path: a different URL
 COLORS = ["red", "bright_red", "grey0", "color(0)", "color(7)", "color(8)", "color(15)", "color(16)",
           "color(255)", "#af00ff", "rgb(175,0,255)", "default"]
 
@@ -225,6 +235,8 @@ def universe(tier):
         add(D(bgcolor=c))
     add(D(link=U1))
     add(D(link=U2))
+    add(D(link=U1C))
+    add(D(link=U1S))
     for a, b in itertools.combinations(ATTRS, 2):
         for va in (True, False):
             for vb in (True, False):
@@ -239,6 +251,10 @@ def universe(tier):
     for a in amix:
         for c, b in cmix:
             for l in (None, U1, U2):
+                add(D(a, c, b, l))
+    for a in amix[:3]:
+        for c, b in cmix[:4]:
+            for l in (U1C, U1S):
                 add(D(a, c, b, l))
     for s in singles:
         for c in COLORS:
@@ -1034,6 +1050,195 @@ def _part_grid(sh, tier, res):
     res.counters["max_grid_values_per_channel"] = len(g)
 
 
+# ------------------------------------------------------------------ (history) parse / normalize caches
+FRESH_WORKERS = True     # every shard starts in a newly forked worker: no parse cache carried over
+
+
+def history_groups():
+    """(description, [spellings]): all spellings of a group denote the same style. Groups come in
+    families whose spellings collide after lower-casing / whitespace normalisation although they
+    denote DIFFERENT styles (everything in a definition is case-insensitive except the URL)."""
+    LA, La = "https://example.org/Docs/README", "https://example.org/docs/readme"
+    groups = []
+    for url in (LA, La, LA + "/"):
+        groups.append((D([("bold", True)], link=url),
+                       ["bold link " + url, "b link " + url, "  bold   link  " + url + " ", "link " + url + " bold",
+                        "BOLD link " + url, "Bold LINK " + url]))
+    for url in ("https://example.org/A", "https://example.org/a", "https://example.org/a/",
+                "https://example.org/q?Key=V", "https://example.org/q?key=v", U1, U1C, U1S):
+        groups.append((D(link=url), ["link " + url, " link  " + url, "LINK " + url]))
+    for url in ("X://Y", "x://y"):
+        groups.append((D([("italic", False)], "red", "blue", url),
+                       ["not italic red on blue link " + url, "not i red on blue link " + url,
+                        "link " + url + " on blue red not italic", "NOT Italic RED On Blue link " + url]))
+    groups.append((D([("bold", True)], "red"), ["bold red", "b red", "red bold", " bold  red ", "BOLD RED", "Bold Red"]))
+    groups.append((D([("bold", True)], "red", "white"), ["bold red on white", "b red on white", "BOLD Red ON White"]))
+    groups.append((D([("bold", False)]), ["not bold", "not b", "not  bold", "NOT BOLD"]))
+    groups.append((D([("underline2", True)]), ["underline2", "uu", "UU"]))
+    groups.append((D([("underline", True)]), ["underline", "u", "U"]))
+    groups.append((D(color="#af00ff"), ["#af00ff", " #af00ff", "#AF00FF"]))
+    groups.append((D(color="rgb(175,0,255)"), ["rgb(175,0,255)", "RGB(175,0,255)"]))
+    groups.append((D(bgcolor="default"), ["on default", "on  default", "ON DEFAULT"]))
+    groups.append((NULLD, ["none", "", " none "]))
+    return groups
+
+
+def _nk(text):
+    return " ".join(text.lower().split())
+
+
+def _has_upper_outside_link(text):
+    words = text.split()
+    out, skip = [], False
+    for w in words:
+        if skip:
+            skip = False
+            continue
+        if w.lower() == "link":
+            skip = True
+        out.append(w)
+    return any(w != w.lower() for w in out)
+
+
+def history_events():
+    """event = [kind, text, description]; kinds: parse(text), normalize(text) then parse of the normal
+    form, kwstr = parse(str(keyword-built style))"""
+    ev = []
+    for d, spellings in history_groups():
+        for t in spellings:
+            ev.append(["parse", t, d])
+        ev.append(["normalize", spellings[0], d])
+        ev.append(["normalize", spellings[-1], d])
+        ev.append(["kwstr", spell(d), d])
+    return ev
+
+
+def _clear_caches():
+    """-> True when every memo the definitions go through could be emptied"""
+    from rich.style import Style
+    from rich.color import Color
+    ok = True
+    for f in (Style.parse, Style.normalize, Color.parse):
+        if hasattr(f, "cache_clear"):
+            f.cache_clear()
+        else:
+            ok = False
+    return ok
+
+
+def _history_steps(events):
+    """runs the events in order in THIS process; -> per step None | [clause, detail]"""
+    from rich.style import Style
+    out = []
+    for kind, text, d in events:
+        d = dj(d)
+        try:
+            k = build(d)
+            if kind == "parse":
+                p, how = Style.parse(text), "parse(%r)" % text
+            elif kind == "normalize":
+                n = Style.normalize(text)
+                p, how = Style.parse(n), "parse(normalize(%r) = %r)" % (text, n)
+            else:
+                p, how = Style.parse(str(k)), "parse(str(Style(**%r)) = %r)" % (kwargs(d), str(k))
+            got = RefStyle.from_rich(p)
+            if got != ref(d):
+                out.append(["value", "%s gave %r, the definition means %r" % (how, got, ref(d))])
+            elif not _eq(p, k):
+                out.append(["eq", "%s has the fields of Style(**%r) but is not == to it" % (how, kwargs(d))])
+            elif not _hash_ok(p, k):
+                out.append(["hash", "%s == Style(**%r) but hashes differently" % (how, kwargs(d))])
+            else:
+                out.append(None)
+        except Exception as exc:
+            out.append(["error-" + type(exc).__name__, "%s %r: %s" % (kind, text, exc)])
+    return out
+
+
+def run_history(events, forked):
+    """Each history starts from empty caches: cleared in place when they are lru_caches, otherwise
+    (forked=True) in a child forked from a process that has not parsed anything yet."""
+    if not forked:
+        _clear_caches()
+        return _history_steps(events)
+    import json
+    r, w = os.pipe()
+    pid = os.fork()
+    if pid == 0:
+        try:
+            os.close(r)
+            data = json.dumps(_history_steps(events)).encode()
+            with os.fdopen(w, "wb") as f:
+                f.write(data)
+        finally:
+            os._exit(0)
+    os.close(w)
+    with os.fdopen(r, "rb") as f:
+        data = f.read()
+    os.waitpid(pid, 0)
+    return json.loads(data.decode()) if data else [["error-child", "no report from the forked history"]] * len(events)
+
+
+def check_history(events, res, forked=False, tolerated=()):
+    """judge every step; the key names what the failing step follows"""
+    outcomes = run_history(events, forked)
+    res.evaluations += len(events)
+    worst = "cold"
+    for j, (ev, oc) in enumerate(zip(events, outcomes)):
+        kind, text, d = ev
+        rel = "cold"
+        for pk, pt, pd in events[:j]:
+            if _nk(pt) == _nk(text) and dj(pd) != dj(d):
+                rel = "after-case-variant"
+                break
+            if dj(pd) == dj(d) and pt != text:
+                rel = "after-other-spelling"
+            elif rel == "cold":
+                rel = "after-unrelated" if dj(pd) != dj(d) else "after-itself"
+        worst = rel
+        if oc is not None and text not in tolerated:
+            res.violate("history/parse/%s/%s/%s" % (kind, rel, oc[0]), {"part": "history", "events": events},
+                        "step %d of %d: %s" % (j + 1, len(events), oc[1]))
+    res.sig(("history", len(events), events[-1][0], worst, all(o is None for o in outcomes)),
+            nontrivial=len(events) > 1 and worst != "after-unrelated")
+    return outcomes
+
+
+def _part_history(sh, tier, res):
+    ev = history_events()
+    forked = not _clear_caches()
+    res.counters["history_forked"] = 1 if forked else 0
+    # upper-case words are accepted by the parser but not documented: a spelling that does not even
+    # parse from empty caches is left out (counted); lower-case spellings are judged cold too
+    tolerated = set()
+    for e in ev:
+        if _has_upper_outside_link(e[1]):
+            if run_history([e], forked)[0] is not None:
+                tolerated.add(e[1])
+    res.counters["max_history_spellings_not_accepted_cold"] = len(tolerated)
+    ev = [e for e in ev if e[1] not in tolerated]
+    if sh["i"] == 0:
+        for e in ev:
+            check_history([e], res, forked)
+    parse_ev = [e for e in ev if e[0] == "parse"]
+    for i in range(sh["i"], len(ev), sh["n"]):
+        if deadline_passed():
+            res.capped = True
+            break
+        for e2 in ev:
+            check_history([ev[i], e2], res, forked)
+            res.count("histories")
+        if tier != "quick" and ev[i][0] == "parse":
+            # thorough: all triples of parse events whose last two or first and last are related
+            for e2 in parse_ev:
+                for e3 in parse_ev:
+                    if _nk(e3[1]) in (_nk(ev[i][1]), _nk(e2[1])) or dj(e3[2]) in (dj(ev[i][2]), dj(e2[2])):
+                        check_history([ev[i], e2, e3], res, forked)
+                        res.count("histories")
+    res.counters["max_history_events"] = len(ev)
+    res.sample({"part": "history", "events": [ev[0], ev[len(ev) // 3]]}, limit=1)
+
+
 # ------------------------------------------------------------------ protocol
 def plan(tier, seed):
     q = tier == "quick"
@@ -1042,6 +1247,7 @@ def plan(tier, seed):
     shards += [{"part": "routes", "i": i, "n": 16 if q else 32} for i in range(16 if q else 32)]
     shards += [{"part": "vec", "i": i, "n": 4 if q else 64} for i in range(4 if q else 64)]
     shards += [{"part": "docs"}]
+    shards += [{"part": "history", "i": i, "n": 6 if q else 16} for i in range(6 if q else 16)]
     shards += [{"part": "grid", "i": i, "n": 6 if q else 16} for i in range(6 if q else 16)]
     return shards
 
@@ -1059,6 +1265,8 @@ def run_shard(sh, tier, seed):
         _part_vec(sh, tier, res)
     elif p == "docs":
         _part_docs(res)
+    elif p == "history":
+        _part_history(sh, tier, res)
     elif p == "grid":
         _part_grid(sh, tier, res)
     return res
@@ -1070,16 +1278,18 @@ def describe(tier, seed, res):
     return {
         "rule": "U = null, each of 13 attributes on/off, all attribute pairs in all 4 specified combinations, 12 colour "
                 "spellings (named, bright, 256-name, color(n) n in {0,7,8,15,16,255}, #hex, rgb(), default) for fg, bg and "
-                "fg x bg, 2 links, single attribute x colour / link, a 6x8x3 mixed block%s: %d styles. (pairs) all %d^2 ordered "
+                "fg x bg, 4 links (two differing from the first only in letter case / a trailing slash), single attribute x colour / link, a 6x8x3 mixed block%s: %d styles. (pairs) all %d^2 ordered "
                 "pairs; (assoc) all triples of a %d-style basis + 13x27 per-attribute state triples; (routes) every s in U "
                 "through every construction route, all 2^fields splits for +, every route-built style again as left and "
                 "right operand of + with 6 keyword-built partners, all triples over 25 route-built + 6 keyword-built operands; "
+                "(history) all ordered pairs%s of 140 parse/normalize/str-round-trip events over 22 groups of spellings that "
+                "collide after lower-casing although the links differ in case, or differ although the style is the same, each from empty caches; "
                 "(vec) %s attribute vectors; (docs) all "
                 "documented attribute spellings, %d colour names, color(0..255), #hex and rgb() on a %d^3 grid plus each "
                 "channel over 0..255. A case is non-trivial when both/all operands specify something (pairs, triples), "
                 "when an attribute is specified (vec) or when the definition parsed (docs); distinct = distinct outcome signatures."
                 % (" + thorough extension (bg per attribute, pairs with colours and link, attribute triples)" if tier != "quick" else "",
-                   nu, nu, nb, "all 3^13" if tier != "quick" else "all with <=3 specified attributes + all 2^13 fully specified",
+                   nu, nu, nb, " and related triples" if tier != "quick" else "", "all 3^13" if tier != "quick" else "all with <=3 specified attributes + all 2^13 fully specified",
                    res.counters.get("colour_names", 0), res.counters.get("max_grid_values_per_channel", 0)),
         "assumptions": [
             "equality demanded between route-built and keyword-built styles is rich's == (which includes the colour's spelling); "
@@ -1088,6 +1298,8 @@ def describe(tier, seed, res):
             "colour name -> number/rgb oracle is the table in docs/source/appendix/colors.rst",
             "bool() of a route-built style that specifies nothing (e.g. Style(color='red').without_color is truthy) is counted "
             "(bool_truthy_but_specifies_nothing), not judged: the statement is silent and + treats it correctly",
+            "upper-case words are accepted by the parser only partly and are undocumented: an upper-case spelling that does not "
+            "parse from empty caches (e.g. 'NOT BOLD') is left out of the histories (max_history_spellings_not_accepted_cold)",
             "abbreviations 'd' and 'c' exist in the parser but are not documented in style.rst and are not judged",
         ],
         "coverage": {"universe": nu, "basis": nb},
@@ -1111,6 +1323,8 @@ def replay(case):
         check_color_name(case["name"], res)
     elif p == "docattr":
         _part_docs(res)
+    elif p == "history":
+        check_history(case["events"], res)
     elif p == "rgb":
         check_rgb(case["rgb"][0], case["rgb"][1], case["rgb"][2], res)
     return [(k, v[2]) for k, v in sorted(res.violations.items())]
